@@ -34,6 +34,10 @@ impl FqVarExtension for FqVar {
         // Note: `num = 1`
         // `y = sqrt(num/den)`
         let (was_square, y) = Fq::sqrt_ratio_zeta(&Fq::ONE, &den);
+        // Verification hook (off unless built with `--cfg decaf377_verif`): lets a test harness play an
+        // adversarial prover by substituting the hint pair before it is witnessed.
+        #[cfg(decaf377_verif)]
+        let (was_square, y) = verif_hook::apply(was_square, y);
 
         let cs = self.cs();
         let was_square_var = Boolean::new_witness(cs.clone(), || Ok(was_square))?;
@@ -96,5 +100,44 @@ impl FqVarExtension for FqVar {
         let absolute_value =
             FqVar::conditionally_select(&self.is_nonnegative()?, &self, &self.negate()?)?;
         Ok(absolute_value)
+    }
+}
+
+/// Hint override used by external verification harnesses; compiled only with `--cfg decaf377_verif`.
+#[cfg(decaf377_verif)]
+pub mod verif_hook {
+    use crate::Fq;
+    use core::sync::atomic::{AtomicU64, AtomicU8, Ordering};
+
+    /// 0: no override; 1: override the pair with (FLAG != 0, Y)
+    pub static MODE: AtomicU8 = AtomicU8::new(0);
+    pub static FLAG: AtomicU8 = AtomicU8::new(0);
+    pub static Y: [AtomicU64; 4] = [AtomicU64::new(0), AtomicU64::new(0), AtomicU64::new(0), AtomicU64::new(0)];
+
+    /// Install (`Some`) or clear (`None`) the hint pair returned to `isqrt` in place of the honest one.
+    pub fn set(hint: Option<(bool, [u64; 4])>) {
+        match hint {
+            None => MODE.store(0, Ordering::SeqCst),
+            Some((flag, limbs)) => {
+                FLAG.store(flag as u8, Ordering::SeqCst);
+                for i in 0..4 {
+                    Y[i].store(limbs[i], Ordering::SeqCst);
+                }
+                MODE.store(1, Ordering::SeqCst);
+            }
+        }
+    }
+
+    pub(super) fn apply(was_square: bool, y: Fq) -> (bool, Fq) {
+        if MODE.load(Ordering::SeqCst) == 0 {
+            return (was_square, y);
+        }
+        let limbs = [
+            Y[0].load(Ordering::SeqCst),
+            Y[1].load(Ordering::SeqCst),
+            Y[2].load(Ordering::SeqCst),
+            Y[3].load(Ordering::SeqCst),
+        ];
+        (FLAG.load(Ordering::SeqCst) != 0, Fq::from_le_limbs(limbs))
     }
 }
